@@ -10,7 +10,7 @@ from ..algebra import Extractor, Rat, Unsupported
 from ..cfg import CFG
 from ..core import Ctx
 from ..model import body_stmts, dotted, kwarg, norm, walk_no_nested
-from .common import assigned_value, enclosing
+from .common import assigned_value, enclosing, expand_locals
 
 FN = "Alignment.gamma_k_disorder"
 
@@ -171,16 +171,16 @@ def run(ctx: Ctx):
     if len(P2l) == 1 and len(P1.body) == 1:
         P2 = P2l[0]
         # for i, (_, unit1) in enumerate(ua.n_tuple): for _, unit2 in ua.n_tuple[i + 1:]:
-        if isinstance(P1.iter, ast.Call) and dotted(P1.iter.func) == "enumerate" and norm(P1.iter.args[0]) == f"{ua}.n_tuple" and \
+        if isinstance(P1.iter, ast.Call) and dotted(P1.iter.func) == "enumerate" and norm(expand_locals(f.node, P1.iter.args[0])) == f"{ua}.n_tuple" and \
                 isinstance(P1.target, ast.Tuple) and isinstance(P1.target.elts[1], ast.Tuple):
             i = norm(P1.target.elts[0])
             u1 = norm(P1.target.elts[1].elts[1])
-            if norm(P2.iter) == f"{ua}.n_tuple[{i} + 1:]" and isinstance(P2.target, ast.Tuple):
+            if norm(expand_locals(f.node, P2.iter, skip=(i,))) == f"{ua}.n_tuple[{i} + 1:]" and isinstance(P2.target, ast.Tuple):
                 u2 = norm(P2.target.elts[1])
                 dom_ok = True
                 pair_body = P2.body
     elif isinstance(P1.iter, ast.Call) and norm(P1.iter.func) in ("itertools.combinations", "combinations") and \
-            norm(P1.iter.args[0]) == f"{ua}.n_tuple" and norm(P1.iter.args[1]) == "2" and isinstance(P1.target, ast.Tuple):
+            norm(expand_locals(f.node, P1.iter.args[0])) == f"{ua}.n_tuple" and norm(P1.iter.args[1]) == "2" and isinstance(P1.target, ast.Tuple):
         a, b = P1.target.elts
         if isinstance(a, ast.Tuple) and isinstance(b, ast.Tuple):
             u1, u2 = norm(a.elts[1]), norm(b.elts[1])
